@@ -55,6 +55,9 @@ class SubstituteInterpretation(Interpretation):
         super().__init__("subs")
         self.subs = subs
         self.base_interpretation = base_interpretation
+        # Names that were fresh in the term being rebuilt, or None for all.
+        # Names introduced by substituted values must not be substituted again.
+        self.fresh = None
         assert isinstance(subs, tuple)
         assert all(isinstance(v, Funsor) for k, v in subs)
 
@@ -65,7 +68,11 @@ class SubstituteInterpretation(Interpretation):
     def interpret(self, cls, *args):
         with self.base_interpretation:
             expr = cls(*args)
-            fresh_subs = tuple((k, v) for k, v in self.subs if k in expr.fresh)
+            fresh_subs = tuple(
+                (k, v)
+                for k, v in self.subs
+                if k in expr.fresh and (self.fresh is None or k in self.fresh)
+            )
             if fresh_subs:
                 expr = instrument.debug_logged(expr.eager_subs)(fresh_subs)
             if instrument.PROFILE:
@@ -90,7 +97,7 @@ def substitute(expr, subs):
 
     env = interpreter.anf(expr, stop)
 
-    with SubstituteInterpretation(subs, interpreter.get_interpretation()):
+    with SubstituteInterpretation(subs, interpreter.get_interpretation()) as interp:
         for key, value in env.items():
             args = tuple(
                 c if interpreter.is_atom(c) else env.get(c, c)
@@ -99,6 +106,7 @@ def substitute(expr, subs):
             if isinstance(value, (tuple, frozenset)):  # TODO absorb this into interpret
                 env[key] = type(value)(args)
             else:
+                interp.fresh = value.fresh
                 env[key] = type(value)(*args)
     return env[expr]
 
